@@ -330,7 +330,7 @@ impl Check for C04Check {
     fn components(&self) -> Value {
         json!({"real": ["Chunk::try_from", "PwbPacket::try_from(Vec<Chunk>)", "PwbV2Packet::try_from(Vec<Chunk>)", "PwbPacket::try_from(&[u8])"],
                "model": ["PWB v2 payload encoder", "MCP chunker", "network (order / loss / duplication / foreign / flag / size faults)", "reference reassembler"],
-               "simulated": ["allocator limit: the processes run under a 4 GiB address-space limit, so a wild allocation fails (abort) instead of being over-committed"], "stub": []})
+               "simulated": ["caller stack: the decoders run on a 2 MiB thread stack (std default)", "allocator limit: the processes run under a 4 GiB address-space limit, so a wild allocation fails (abort) instead of being over-committed"], "stub": []})
     }
     fn count(&self, tier: Tier) -> u64 {
         match tier {
@@ -431,6 +431,86 @@ impl Check for C04Check {
     }
 
     fn run(&self, scenario: &Value, stats: &mut Stats) -> Outcome {
+        // the decoders run on a thread with the stack an ordinary caller has (2 MiB, std's default
+        // for spawned threads), not on the worker's 512 MiB stack: recursion whose depth the sender
+        // controls must overflow here as it would there (process abort -> no-abort)
+        std::thread::scope(|sc| {
+            std::thread::Builder::new()
+                .stack_size(2 << 20)
+                .spawn_scoped(sc, || run_on_caller_stack(scenario, stats))
+                .expect("spawn runner thread")
+                .join()
+                .unwrap_or_else(|p| std::panic::resume_unwind(p))
+        })
+    }
+
+    fn shrink(&self, scenario: &Value) -> Vec<Value> {
+        let scn: Scn = match serde_json::from_value(scenario.clone()) {
+            Ok(s) => s,
+            Err(_) => return vec![],
+        };
+        let mut out = Vec::new();
+        let mut push = |s: Scn| out.push(serde_json::to_value(s).unwrap());
+        for i in 0..scn.faults.len() {
+            let mut s = scn.clone();
+            s.faults.remove(i);
+            push(s);
+        }
+        if !scn.pwb.channels.is_empty() {
+            let mut s = scn.clone();
+            s.pwb.channels.pop();
+            push(s);
+            let mut s = scn.clone();
+            s.pwb.channels.truncate(1);
+            push(s);
+            let mut s = scn.clone();
+            s.pwb.channels.clear();
+            push(s);
+        }
+        for v in [0u16, 1, scn.pwb.requested_samples / 2] {
+            if v < scn.pwb.requested_samples {
+                let mut s = scn.clone();
+                s.pwb.requested_samples = v;
+                push(s);
+            }
+        }
+        // fewer chunks: larger chunk size
+        let len = scn.pwb.payload().len();
+        let n = len.div_ceil(scn.chunk_size.max(1)).max(1);
+        for target in [2usize, 3, 4, 5, n.saturating_sub(1)] {
+            if target >= 1 && target < n {
+                let mut s = scn.clone();
+                s.chunk_size = len.div_ceil(target).clamp(1, 65535);
+                if let Orders::Explicit(_) = s.orders {
+                    s.orders = if target <= 6 { Orders::All } else { Orders::Structured { shuffles: 24, seed: 1 } };
+                }
+                push(s);
+            }
+        }
+        if let Orders::Explicit(v) = &scn.orders {
+            // simplify the orders towards the identity
+            for k in 0..v.len() {
+                let mut p = v[k].clone();
+                for i in 0..p.len() {
+                    for j in i + 1..p.len() {
+                        if p[i] > p[j] {
+                            p.swap(i, j);
+                            let mut s = scn.clone();
+                            let mut w = v.clone();
+                            w[k] = p.clone();
+                            s.orders = Orders::Explicit(w);
+                            push(s);
+                            p.swap(i, j);
+                        }
+                    }
+                }
+            }
+        }
+        out
+    }
+}
+
+fn run_on_caller_stack(scenario: &Value, stats: &mut Stats) -> Outcome {
         let scn: Scn = serde_json::from_value(scenario.clone()).expect("C04 scenario");
         let payload = scn.pwb.payload();
         let b = &boards::pwb_boards()[scn.pwb.board % boards::pwb_boards().len()];
@@ -624,69 +704,3 @@ impl Check for C04Check {
         let _ = after_to_u8;
         Outcome { log_hash: log.finish(), nontrivial: n >= 2 && orders.len() >= 2, violations: viol }
     }
-
-    fn shrink(&self, scenario: &Value) -> Vec<Value> {
-        let scn: Scn = match serde_json::from_value(scenario.clone()) {
-            Ok(s) => s,
-            Err(_) => return vec![],
-        };
-        let mut out = Vec::new();
-        let mut push = |s: Scn| out.push(serde_json::to_value(s).unwrap());
-        for i in 0..scn.faults.len() {
-            let mut s = scn.clone();
-            s.faults.remove(i);
-            push(s);
-        }
-        if !scn.pwb.channels.is_empty() {
-            let mut s = scn.clone();
-            s.pwb.channels.pop();
-            push(s);
-            let mut s = scn.clone();
-            s.pwb.channels.truncate(1);
-            push(s);
-            let mut s = scn.clone();
-            s.pwb.channels.clear();
-            push(s);
-        }
-        for v in [0u16, 1, scn.pwb.requested_samples / 2] {
-            if v < scn.pwb.requested_samples {
-                let mut s = scn.clone();
-                s.pwb.requested_samples = v;
-                push(s);
-            }
-        }
-        // fewer chunks: larger chunk size
-        let len = scn.pwb.payload().len();
-        let n = len.div_ceil(scn.chunk_size.max(1)).max(1);
-        for target in [2usize, 3, 4, 5, n.saturating_sub(1)] {
-            if target >= 1 && target < n {
-                let mut s = scn.clone();
-                s.chunk_size = len.div_ceil(target).clamp(1, 65535);
-                if let Orders::Explicit(_) = s.orders {
-                    s.orders = if target <= 6 { Orders::All } else { Orders::Structured { shuffles: 24, seed: 1 } };
-                }
-                push(s);
-            }
-        }
-        if let Orders::Explicit(v) = &scn.orders {
-            // simplify the orders towards the identity
-            for k in 0..v.len() {
-                let mut p = v[k].clone();
-                for i in 0..p.len() {
-                    for j in i + 1..p.len() {
-                        if p[i] > p[j] {
-                            p.swap(i, j);
-                            let mut s = scn.clone();
-                            let mut w = v.clone();
-                            w[k] = p.clone();
-                            s.orders = Orders::Explicit(w);
-                            push(s);
-                            p.swap(i, j);
-                        }
-                    }
-                }
-            }
-        }
-        out
-    }
-}
